@@ -270,6 +270,8 @@ pub struct TestPort {
     /// where the port leaves a last view of itself (bytes written, bytes unread, settings, timeout) when it is dropped:
     /// an owner such as `Odk` keeps its port private, so the harness looks at the port after dropping the owner
     pub last_view: Option<std::sync::Arc<std::sync::Mutex<Option<Vec<String>>>>>,
+    /// the longest read timeout the device takes (a longer one is refused with fail_kind, every time)
+    pub max_timeout: Option<Duration>,
 }
 impl Drop for TestPort {
     fn drop(&mut self) {
@@ -312,6 +314,7 @@ impl TestPort {
             config_calls: vec![],
             flush_fails: false,
             last_view: None,
+            max_timeout: None,
             opaque: [false; 5],
         }
     }
@@ -358,7 +361,7 @@ impl SerialDevice for TestPort {
     }
     fn set_timeout(&mut self, t: Duration) -> serial_core::Result<()> {
         self.config_calls.push("set_timeout");
-        if self.fail == FailAt::Timeout {
+        if self.fail == FailAt::Timeout || self.max_timeout.map(|m| t > m).unwrap_or(false) {
             return Err(self.fail_kind.error());
         }
         self.timeout = Some(t);
@@ -972,7 +975,11 @@ pub fn eval_io_case(t: &[&str]) -> Option<String> {
             };
             // fail token: <point>[:<kind letter>]
             let (fpoint, fkind) = t[6].split_once(':').unwrap_or((t[6], ""));
-            let fail = match fpoint {
+            // "above<ns>": no call refuses outright, but the device takes no timeout longer than that many nanoseconds
+            let max_timeout = fpoint.strip_prefix("above").map(|n| Duration::from_nanos(n.parse().unwrap()));
+            let fpoint = if max_timeout.is_some() { "timeout" } else { fpoint };
+            let fail = match t[6].split(':').next().unwrap() {
+                x if x.starts_with("above") => FailAt::None,
                 "none" => FailAt::None,
                 "read" => FailAt::Read,
                 "baud" => FailAt::Baud,
@@ -984,6 +991,7 @@ pub fn eval_io_case(t: &[&str]) -> Option<String> {
             port.fail = fail;
             port.opaque = [opaque[0], opaque[1], opaque[2], opaque[3], opaque[4]];
             port.fail_kind = FailKind::of_str(fkind);
+            port.max_timeout = max_timeout;
             let want_kind = port.fail_kind.kind();
             let view = port.watch();
             let ctor: Vec<&str> = t[7].split('.').collect();
